@@ -531,36 +531,49 @@ def check(model, rep, tier):
         # entered by `with`: left on every path by construction
         rep.hold('OPT-FRAME', '%s:with(%s)' % (fi_.site, core.norm(
             w_.items[0].context_expr)), {'form': 'with'})
-  fso = model.func(FUNCS, 'FunctionTransformer._function_scope_options')
-  fp_ = fso.params()[0]
-
-  # the parameter is the function's state object, or its nesting level when
-  # every caller passes <state>.level
   ft = model.cls(FUNCS, 'FunctionTransformer')
-  passed = [core.norm(c.args[0]) for m_ in ft.methods.values() for c in ast.walk(m_.node)
-            if isinstance(c, ast.Call) and core.norm(c.func) == 'self.' + fso.name
-            and c.args]
-  lv_ = fp_ if passed and all(a.endswith('.level') for a in passed) else fp_ + '.level'
+  fso = ft.methods.get('_function_scope_options')
+  callee_txt = 'self._function_scope_options'
+  if fso is None:
+    # the same function kept at module level (it reads nothing but its arguments)
+    fso = model.module(FUNCS).functions.get('_function_scope_options')
+    callee_txt = '_function_scope_options'
+  if fso is not None:
+    # parameters by what the callers pass: the user's options (when they are not
+    # read off self), and the function's state object or its nesting level
+    calls_fso = [c for m_ in ft.methods.values() for c in ast.walk(m_.node)
+                 if isinstance(c, ast.Call) and core.norm(c.func) == callee_txt]
+    from sa import inline as _inl
+    roles = {}
+    for c in calls_fso:
+      b_ = _inl._bind(fso.node, c, fso.cls is not None) or {}
+      for k_, v_ in b_.items():
+        roles.setdefault(k_, set()).add(core.norm(v_))
+    opt_p = [k_ for k_, vs in roles.items() if vs == {'self.ctx.user.options'}]
+    USER_OPTS = opt_p[0] if opt_p else 'self.ctx.user.options'
+    fp_ = [k_ for k_ in (fso.params() or ['fn_scope']) if k_ not in opt_p][0]
+    passed = sorted(roles.get(fp_, []))
+    lv_ = fp_ if passed and all(a.endswith('.level') for a in passed) else fp_ + '.level'
 
-  def lvl_atom(e):
-    t = core.norm(e)
-    if t in ('%s == 2' % lv_, '%s <= 2' % lv_, '%s < 3' % lv_):
-      return 'TOP'
-    return None
+    def lvl_atom(e):
+      t = core.norm(e)
+      if t in ('%s == 2' % lv_, '%s <= 2' % lv_, '%s < 3' % lv_):
+        return 'TOP'
+      return None
 
-  def xv(v):
-    return tpl.xnorm(fso, v, v) if v is not None else None
-  cases = formula.return_cases(fso.node, formula.expanding(fso.node, lvl_atom))
-  TOPA = formula.atom('TOP')
-  top_vals = {xv(v) for f, v in cases if formula.satisfiable(f & TOPA)}
-  deep_vals = {xv(v) for f, v in cases if formula.satisfiable(f & ~TOPA)}
-  lvl2, deeper = sorted(map(str, top_vals)), sorted(map(str, deep_vals))
-  rep.check(top_vals == {'self.ctx.user.options'} and
-            deep_vals == {'self.ctx.user.options.call_options()'}, 'OPT-CALLEE',
-            '%s' % fso.site,
-            'top-level function scope must get the user options, nested ones '
-            'the call options', {'level2': lvl2, 'nested': deeper},
-            line=fso.node.lineno)
+    def xv(v):
+      return tpl.xnorm(fso, v, v) if v is not None else None
+    cases = formula.return_cases(fso.node, formula.expanding(fso.node, lvl_atom))
+    TOPA = formula.atom('TOP')
+    top_vals = {xv(v) for f, v in cases if formula.satisfiable(f & TOPA)}
+    deep_vals = {xv(v) for f, v in cases if formula.satisfiable(f & ~TOPA)}
+    lvl2, deeper = sorted(map(str, top_vals)), sorted(map(str, deep_vals))
+    rep.check(top_vals == {USER_OPTS} and
+              deep_vals == {USER_OPTS + '.call_options()'}, 'OPT-CALLEE',
+              '%s' % fso.site,
+              'top-level function scope must get the user options, nested ones '
+              'the call options', {'level2': lvl2, 'nested': deeper},
+              line=fso.node.lineno)
   # both templates embed the options via to_ast()
   n_embed = 0
   for st in tpl.find_sites(model, [FUNCS]):
@@ -570,8 +583,27 @@ def check(model, rep, tier):
       v = tpl.expand(st.fi, v, st.call)      # through a local that names it
       okv = isinstance(v, ast.Call) and isinstance(v.func, ast.Attribute) and \
           v.func.attr == 'to_ast' and isinstance(v.func.value, ast.Call) and \
-          core.norm(v.func.value.func) == 'self._function_scope_options' and \
-          len(v.func.value.args) == 1
+          core.norm(v.func.value.func) == callee_txt and \
+          len(v.func.value.args) in (1, 2)
+      if fso is None:
+        # the choice written out at the embedding site: the same two cases
+        okv = False
+        if isinstance(v, ast.Call) and isinstance(v.func, ast.Attribute) and \
+            v.func.attr == 'to_ast' and not v.args:
+          def lvl_atom2(e):
+            t = core.norm(e)
+            if t.endswith('.level == 2') or t.endswith('.level <= 2') or t.endswith(
+                '.level < 3'):
+              return 'TOP'
+            return None
+          TOP2 = formula.atom('TOP')
+          cs_ = formula.value_cases(st.fi.node, v.func.value, st.call, lvl_atom2)
+          tv_ = {core.norm(x) for f_, x in cs_ if formula.satisfiable(f_ & TOP2)}
+          dv_ = {core.norm(x) for f_, x in cs_ if formula.satisfiable(f_ & ~TOP2)}
+          # (a handler that has already left for nested functions has no
+          # nested case at this point)
+          okv = tv_ == {'self.ctx.user.options'} and dv_ <= {
+              'self.ctx.user.options.call_options()'}
       rep.check(okv,
                 'OPT-CALLEE', '%s:options-embedded' % st.fi.site,
                 'the function scope template must embed '
